@@ -44,6 +44,11 @@ Admissible(c, p) ==
                               ELSE [vals |-> {}, masked |-> TRUE])
   ELSE [vals |-> {Affine(q)} \cup (IF c.fill THEN NearestVals(c, q) ELSE {}), masked |-> ~c.fill]
 
+(* a fixed target mask without filling: the adapter may refuse the setup when some unmasked    *)
+(* target is not strictly inside the hull (it could not be masked); it must never deliver it  *)
+MayRefuse(c) == c.kind = "linear" /\ c.tm /\ ~c.fill /\
+                \E p \in 1..N(c.dst) : ~TMask(c, p) /\ ~Inside(c, Locs(c.dst, c.tu)[p])
+
 Hows(L) == IF L.loc = "points" THEN {"struct", "unstr", "upoints"} ELSE {"struct", "unstr"}
 SrcLayouts == {L \in Layouts({"uniform", "rect"}, {<<3>>, <<2, 3>>, <<3, 3>>}) : L.order = "F" \/ (L.rev /\ L.dims = <<2, 3>>)}
 DstLayouts == {L \in Layouts({"uniform"}, {<<4>>, <<3, 2>>, <<3, 3>>}) : (L.order = "C" /\ ~L.rev) \/ (L.order = "F" /\ L.rev)}
@@ -65,6 +70,6 @@ LinearCases ==
   {c \in {[kind |-> "linear", src |-> s, dst |-> d, su |-> su, tu |-> "struct", sm |-> sm, tm |-> tm, fill |-> f] :
             s \in LinSrc, d \in LinDst, su \in {"struct", "unstr", "upoints"}, sm \in BOOLEAN, tm \in BOOLEAN, f \in BOOLEAN} :
      /\ c.su \in Hows(c.src) /\ (c.su = "struct" => c.sm)     \* unstructured or masked sources only
-     /\ FullDim(c) /\ Cardinality(LivePts(c)) >= 4 /\ (c.tm => c.fill)}    \* a fixed target mask that leaves uncovered cells unmasked is refused (not in the statement)
+     /\ FullDim(c) /\ Cardinality(LivePts(c)) >= 4}
 
 =============================================================================
